@@ -28,27 +28,46 @@ structure WF (s : State) : Prop where
   /-- a loaded glyph that is not dirty equals its file -/
   cleanEq : ∀ n r, AL.get? s.loaded n = some (r, false) → AL.get? s.disk n = some r
 
-/-- Well-formed unicode map: one entry per code point, no empty and no repeated name lists. -/
+/-- A unicode map whose name lists carry no name twice (what the maps of layers without repeated code points in
+their glyphs' lists look like; used by `remove_exact` and the duplicate-free corollary). -/
 structure UniWF (m : Cmap) : Prop where
   keys : (AL.keys m).Nodup
   lists : ∀ p ∈ m, p.2.Nodup
 
-/-- the map `u`, if it exists, is exactly the inverse of the unicodes of content `f` -/
+/-- Shape of every reachable unicode map: one entry per code point, and no entry with an empty list (the entry
+of a code point whose last glyph left is deleted, so `c in unicodeData` is true exactly for carried code points). -/
+structure MapWF (m : Cmap) : Prop where
+  keys : (AL.keys m).Nodup
+  nonempty : ∀ p ∈ m, p.2 ≠ []
+
+/-- how often glyph `n` of content `f` lists code point `c` (0 for an absent glyph) -/
+def cnt (f : String → Option GRec) (n : String) (c : Nat) : Nat :=
+  match f n with
+  | none => 0
+  | some r => r.unicodes.count c
+
+/-- the map `u`, if it exists, is the inverse of the unicodes of content `f`: a glyph is listed under every code
+point it carries, and under a code point never more often than its own list repeats that code point (so: not at
+all under a code point it does not carry, and once at most when its list has no repetition) -/
 def UniInv (f : String → Option GRec) (u : Option Cmap) : Prop :=
-  ∀ m, u = some m → UniWF m ∧ ∀ c n, n ∈ namesAt m c ↔ ∃ r, f n = some r ∧ c ∈ r.unicodes
+  ∀ m, u = some m → MapWF m ∧ ∀ c n, (namesAt m c).count n ≤ cnt f n c ∧ (0 < cnt f n c → 0 < (namesAt m c).count n)
 
 /-- C09: the map, once it exists, is exactly the inverse of the glyphs' unicodes. -/
 def UniOK (s : State) : Prop := UniInv (abs s) s.uni
 
-/-- valid domain: unicode lists of glyph records carry no duplicates (glifLib enforces this on
-read; the UFO specification on write) -/
+/-- unicode lists of all glyph records carry no duplicates (the narrower domain of the first version of the
+C09 theorems; still the hypothesis of `uni_inverse_nodup`) -/
 def RecsOK (s : State) : Prop := ∀ n r, abs s n = some r → r.unicodes.Nodup
+
+/-- what glifLib hands out has no repeated code point: the records of the glyphs that have not been read (their
+content is what the glyph set holds) carry duplicate-free lists.  Glyphs in memory may repeat code points. -/
+def ScanOK (s : State) : Prop := ∀ n r, abs s n = some r → AL.get? s.loaded n = none → r.unicodes.Nodup
 
 /-- everything the theorems need of a state -/
 structure Good (s : State) : Prop where
   wf : WF s
   uni : UniOK s
-  recs : RecsOK s
+  scan : ScanOK s
 
 /-- abstract update of a partial map -/
 def upd (f : String → Option GRec) (n : String) (v : Option GRec) : String → Option GRec :=
@@ -75,19 +94,26 @@ def specStep (f : String → Option GRec) : Op → Option (String → Option GRe
   | .save => some f
   | .touchUni => some f
   | .touch n => if (f n).isSome then some f else none
+  | .setUnicode n v =>
+    match f n with
+    | none => none
+    | some r => some (upd f n (some (withUnicodes r v.toList)))
+  | .reload n r => if (f n).isSome then some (upd f n (some r)) else none
+  | .fwd _ => some f
+  | .pseudo _ => some f
 
-/-- domain of the property: inserted/assigned unicode lists carry no duplicates and a rename
-never targets a name that is present (the code would silently overwrite that glyph) -/
-def OpOK (f : String → Option GRec) : Op → Prop
-  | .insert _ r => r.unicodes.Nodup
-  | .setUnicodes _ us => us.Nodup
-  | .rename o n => o = n ∨ f n = none
+/-- domain of the property: every operation with every argument — unicode lists with repeated code points,
+renames onto names that are present (the glyph there is replaced) — except that the content another program
+leaves in a GLIF is what glifLib reads from it, which never repeats a code point -/
+def OpOK (_f : String → Option GRec) : Op → Prop
+  | .reload _ r => r.unicodes.Nodup
   | _ => True
 
 instance (f : String → Option GRec) : (op : Op) → Decidable (OpOK f op)
-  | .insert _ r => inferInstanceAs (Decidable r.unicodes.Nodup)
-  | .setUnicodes _ us => inferInstanceAs (Decidable us.Nodup)
-  | .rename o n => inferInstanceAs (Decidable (o = n ∨ f n = none))
+  | .reload _ r => inferInstanceAs (Decidable r.unicodes.Nodup)
+  | .insert .. => isTrue trivial
+  | .setUnicodes .. => isTrue trivial
+  | .rename .. => isTrue trivial
   | .get _ => isTrue trivial
   | .new _ => isTrue trivial
   | .delete _ => isTrue trivial
@@ -95,6 +121,35 @@ instance (f : String → Option GRec) : (op : Op) → Decidable (OpOK f op)
   | .save => isTrue trivial
   | .touchUni => isTrue trivial
   | .touch _ => isTrue trivial
+  | .setUnicode .. => isTrue trivial
+  | .fwd _ => isTrue trivial
+  | .pseudo _ => isTrue trivial
+
+/-- the narrower domain of the duplicate-free corollary: every list that enters the layer is duplicate free -/
+def OpNodup : Op → Prop
+  | .insert _ r => r.unicodes.Nodup
+  | .setUnicodes _ us => us.Nodup
+  | .reload _ r => r.unicodes.Nodup
+  | _ => True
+
+instance : (op : Op) → Decidable (OpNodup op)
+  | .reload _ r => inferInstanceAs (Decidable r.unicodes.Nodup)
+  | .insert _ r => inferInstanceAs (Decidable r.unicodes.Nodup)
+  | .setUnicodes _ us => inferInstanceAs (Decidable us.Nodup)
+  | .rename .. => isTrue trivial
+  | .get _ => isTrue trivial
+  | .new _ => isTrue trivial
+  | .delete _ => isTrue trivial
+  | .edit .. => isTrue trivial
+  | .save => isTrue trivial
+  | .touchUni => isTrue trivial
+  | .touch _ => isTrue trivial
+  | .setUnicode .. => isTrue trivial
+  | .fwd _ => isTrue trivial
+  | .pseudo _ => isTrue trivial
+
+/-- `unicodeForGlyphName` as a function of the content: the first code point of the glyph, if it has one -/
+def specFwd (f : String → Option GRec) (n : String) : Option Nat := (f n).bind (fun r => r.unicodes.head?)
 
 /-- a rejected operation leaves the content as it was -/
 def specTotal (f : String → Option GRec) (op : Op) : String → Option GRec := (specStep f op).getD f
